@@ -127,3 +127,33 @@ def any_feasible(base, alternatives_list):
         return False
 
     return rec(list(base), 0)
+
+
+_SIGN_OPS = {frozenset("-"): "<", frozenset("0"): "==", frozenset("+"): ">", frozenset("-0"): "<=", frozenset("0+"): ">=", frozenset("-+"): "!="}
+
+
+def implied_signs(facts, e, limit=24):
+    """the signs e can have given every affine sign fact of the path (exact over the reals: Fourier-Motzkin on the facts
+    joined with e < 0, e == 0, e > 0 in turn).  Facts that are not affine are ignored, which only widens the answer."""
+    allsigns = {"-", "0", "+"}
+    if affine(e) is None:
+        return set(allsigns)
+    formulas = []
+    for ent in facts.signs:
+        fe, signs = ent[0], frozenset(ent[1])
+        if signs >= allsigns or not signs:
+            continue
+        op = _SIGN_OPS.get(signs)
+        c = cons(fe, op) if op else None
+        if c is not None:
+            formulas.append(c)
+    if len(formulas) > limit:
+        formulas = formulas[-limit:]
+    out = set()
+    for s, op in (("-", "<"), ("0", "=="), ("+", ">")):
+        try:
+            if any_feasible([], formulas + [cons(e, op)]):
+                out.add(s)
+        except OverflowError:
+            out.add(s)
+    return out
